@@ -338,6 +338,31 @@ def oracle_case(i, seed):
             dev = float(np.abs(c - b).max() / np.abs(b).max())
             if not (dev <= 2e-5):
                 viol.append(_v("C10:equal-axes-spheroid", "spheroid with equal semi-axes (rotation %s) differs from the sphere by %.3g" % (np.round(rot, 3).tolist(), dev), dict(rot=list(rot), **info)))
+            # a size sweep in small steps, in any unit of length (micrometres, metres, nanometres), in ONE interpreter: what was
+            # computed for one particle must not be reused for its neighbour in the sweep
+            unit = [1e-6, 1.0, 1e3, 1e-6, 1e-3][(i // 5) % 5]      # metres in every run: absolute tolerances hide there
+            x0 = float(np.exp(rng.uniform(np.log(0.5), np.log(8.0))))
+            optu = dict(medium_index=NMED, illum_wavelen=WL * unit)
+            ptsu = detector_points(theta=th, phi=ph, r=rr * unit)
+            for j in range(4):
+                xj = x0 * (1 + 0.011 * j)
+                scj = Sphere(n=nn, r=xj / K * unit, center=(0, 0, 0))
+                tried.append(_t("sphere-limit-sweep", (unit, round(x0, 5), j)))
+                aj = vec(calc_field(ptsu, scj, illum_polarization=(1, 0), theory=Tmatrix(), **optu))
+                bj = vec(calc_field(ptsu, scj, illum_polarization=(1, 0), theory=Mie(False, False), **optu))
+                dev = float(np.abs(aj - bj).max() / np.abs(bj).max())
+                if not (dev <= 2e-5):
+                    viol.append(_v("C10:sphere-limit:sweep", "size sweep in units of %g um, step %d (x = %.4g after %.4g): Tmatrix field differs from Lorenz-Mie by %.3g" % (unit, j, xj, x0 * (1 + 0.011 * (j - 1)), dev),
+                                   dict(kind="sweep", unit=unit, x0=x0, step=j, n=cxl(nn))))
+                    break
+                if j == 1:
+                    spj = Spheroid(n=nn, r=(xj / K * unit, xj / K * unit), rotation=rand_rot(rng), center=(0, 0, 0))
+                    cj = vec(calc_field(ptsu, spj, illum_polarization=(1, 0), theory=Tmatrix(), **optu))
+                    dev = float(np.abs(cj - bj).max() / np.abs(bj).max())
+                    if not (dev <= 2e-5):
+                        viol.append(_v("C10:equal-axes-spheroid:sweep", "size sweep in units of %g um: the equal-axes spheroid after the sphere of the previous step differs from the sphere by %.3g" % (unit, dev),
+                                       dict(kind="sweep", unit=unit, x0=x0, step=j, n=cxl(nn))))
+                        break
         elif kcase == 1:
             # inside the lens wrapper
             x = float(np.exp(rng.uniform(np.log(0.5), np.log(8.0))))
